@@ -9,7 +9,7 @@ CFG = {
             "colours (quick) / all 2^24 direct colours (thorough); C07caps: real vaxis.New on the fake console for advertised "
             "capability subsets (3000 random + the cursor-in-column-2 scenarios in quick, all 2^16 subsets in thorough), detected "
             "flags and Can* accessors, RenderedWidth of 14 graphemes under the detected method; non-trivial = a direct colour / a caps "
-            "or width line; distinct by op line; plus the C01 frame-history stream and the C04 session stream, whose drivers also judge every real token against the gated vocabulary (allowedTok / allowedLife) under the detected capability set",
+            "or width line; distinct by op line; C07caps also runs ~700 start-up reply streams through the real New (replayed through the start-up LTS, judged by specCaps) and 120 fixtures of API calls (clipboard, notify, title, app id, bell, cursor-position and colour queries) whose bytes must be the sequences.go template - and nothing for a colour query whose report was not advertised; plus the C01 frame-history stream and the C04 session stream, whose drivers also judge every real token against the gated vocabulary (allowedTok / allowedLife) under the detected capability set",
     "trusted_base": ["float64 distance step modelled by exact integer score x10^4 (DESIGN §3.5); compared by score of the chosen entry",
                      "uniseg.StringWidth / runewidth.RuneWidth are parameters (the three candidate measurements are computed by the harness)",
                      "renderer and lifecycle models are those of C01/C04 (tied to the code by their correspondence checks)"],
@@ -17,10 +17,20 @@ CFG = {
                   "formula palette); render_gated: every token of every frame is baseline or allowed by the capability set (no direct-colour SGR "
                   "without RGB, no 4:n/58/59 without styled underlines, no OSC 66 / 2026 unless advertised) for all grids and styles; "
                   "lifecycle_gated: by kernel evaluation over all 2^9 guard assignments of the lists regenerated from vaxis.go, start-up after "
-                  "DA1, Suspend and Resume write only baseline or advertised vocabulary; width_method. Capability detection (flags = replies) is "
-                  "checked on the real New() for capability subsets.",
-    "level_note": "Modelled not verified: float64 rounding (validated on all 2^24 colours in thorough); uniseg/runewidth; the New() event loop and "
-                  "reply decoding are checked dynamically against the specification 'flag iff advertising reply' (their model lives in C03).",
+                  "DA1, Suspend and Resume write only baseline or advertised vocabulary; width_method; caps_exact / caps_sound / "
+                  "reply_notices_exact over the start-up LTS (the loop of New running concurrently with the model of handleSequence): for "
+                  "every reply stream, order, interleaving, queue capacity and probe outcome, each capability flag is set iff a reply "
+                  "advertising it arrived no later than the first DA1 reply (facts_* pin the loop, the probe, applyQuirks, every write of "
+                  "the capability record and the Can* accessors to the source); writers_classified / gated_sequences_guarded / "
+                  "request_writers_exact / new_image_by_protocol: every one of the ~130 terminal writers of the root package (regenerated "
+                  "with its guard stack) is a start-up probe, a gated sequence under a guard testing its capability, an "
+                  "application-request API write (listed exactly), baseline/plumbing, or a statement of a modelled function.",
+    "level_note": "Validated by correspondence only: the start-up LTS = the real New() on ~700 (quick) / 12000 reply streams and on capability "
+                  "subsets (all 2^16 in thorough); API writers = sequences.go templates on the real calls. Modelled not verified: float64 "
+                  "rounding (validated on all 2^24 colours in thorough); uniseg/runewidth; real time of the two start-up time-outs (labels); "
+                  "caps_exact assumes the loop ended by DA1 with nothing dropped (existence of such a run for every stream is played by the "
+                  "correspondence schedule, not proved); the RGB fallback inside render is gated by assignment and covered by render_gated, "
+                  "not by the guard classification; which sequences count as baseline xterm is a table of the spec.",
     "assumptions": ["IEEE-754 double rounding error << 1e-4 for channel differences <= 255",
                     "environment overrides (COLORTERM, VAXIS_FORCE_*) are unset: they are configuration, not terminal advertisement"],
 }
